@@ -6,7 +6,10 @@ in vt.satref.  A disagreement raises ShimSelfCheckError (never swallowed)."""
 import os
 import tempfile
 
-STATS = {'solve': 0, 'sat': 0, 'unsat': 0, 'unsat_rechecked': 0, 'max_vars': 0, 'max_clauses': 0}
+STATS = {'solve': 0, 'sat': 0, 'unsat': 0, 'unsat_rechecked': 0, 'max_vars': 0, 'max_clauses': 0, 'cap_hits': 0}
+# a single SAT call is capped (the real solver would keep running; the monitored code is handed what it gets when a time
+# limit expires, the library's own SolverTimeOutError, so a capped call is a documented "out of time" outcome, counted here)
+CAP_MS = int(os.environ.get('VT_SOLVER_CAP_MS', '3000'))
 
 
 class ShimSelfCheckError(Exception):
@@ -72,6 +75,7 @@ class Solver:
                 f.write('\n'.join(' '.join(map(str, c)) + ' 0' for c in clauses))
                 f.write('\n')
             s = z3.Solver()
+            s.set('timeout', CAP_MS)
             s.from_file(path)
         finally:
             try:
@@ -104,7 +108,13 @@ class Solver:
             self._status = False
             STATS['unsat'] += 1
             return False
-        raise ShimSelfCheckError('z3 returned unknown')
+        reason = s.reason_unknown()
+        if 'timeout' in reason or 'canceled' in reason or 'cancelled' in reason:
+            STATS['cap_hits'] += 1
+            self._status = None
+            from cirbo.synthesis.exception import SolverTimeOutError
+            raise SolverTimeOutError()
+        raise ShimSelfCheckError('z3 returned unknown: %s' % reason)
 
     def get_model(self):
         if self._status:
